@@ -174,12 +174,18 @@ def _init_worker(modname, prop, tier):
 def _run_shard(args):
     idx, shard = args
     ctx = Ctx(_W['prop'], _W['tier'], _W['known'], shard)
+    _W['seq'] = _W.get('seq', 0) + 1
     try:
         _W['mod'].run_shard(shard, ctx)
     except BaseException:  # noqa: BLE001
         return idx, {'harness_error': traceback.format_exc(),
                      'shard': repr(shard)[:300]}
-    return idx, ctx.result()
+    res = ctx.result()
+    # which worker process ran this shard, and as its how-manyth: the
+    # counterexample of a failure that depends on what the LIBRARY did before
+    # in the same process is the worker's history up to this shard
+    res['worker'] = [os.getpid(), _W['seq']]
+    return idx, res
 
 
 # -- main side -----------------------------------------------------------
@@ -225,6 +231,13 @@ def aggregate(mod, prop, tier, seed, shards, results, t0):
     groups = {}
     samples = []
     rnd = random.Random(seed)
+    by_worker = collections.defaultdict(list)
+    for i, res in enumerate(results):
+        pid, seq = res.get('worker', (0, i))
+        by_worker[pid].append((seq, i))
+        for tags, gsig, n, examples in res['unmatched']:
+            for ex in examples:
+                ex['worker'] = [pid, seq]
     for res in results:
         tot['evaluations'] += res['evaluations']
         tot['nontrivial'] += res['nontrivial']
@@ -289,6 +302,22 @@ def aggregate(mod, prop, tier, seed, shards, results, t0):
                                         XLMC_REPLAY_MASK_KNOWN='1'),
                     stdout=subprocess.DEVNULL,
                     stderr=subprocess.DEVNULL).returncode
+                if rc2 != 1 and ex.get('worker'):
+                    # Third attempt: everything the worker process had run
+                    # before this shard, in its order, in a fresh interpreter.
+                    pid, seq = ex['worker']
+                    ex['replay_as'] = 'worker-history'
+                    ex['history'] = [shards[i] for q, i in
+                                     sorted(by_worker[pid]) if q <= seq]
+                    write_replay(prop, ex, n)
+                    rc2 = subprocess.run(
+                        [sys.executable, '-m', 'xlmc.cli', prop, '--replay',
+                         path, '--quiet'],
+                        cwd=VERIF, env=dict(os.environ, PYTHONHASHSEED='1',
+                                            XLMC_NO_REVERIFY='1',
+                                            XLMC_REPLAY_MASK_KNOWN='1'),
+                        stdout=subprocess.DEVNULL,
+                        stderr=subprocess.DEVNULL).returncode
                 if rc2 != 1:
                     unconfirmed.append((path, ex, n, rc, rc2))
         confirmed = [v for v in violation_files
@@ -297,7 +326,8 @@ def aggregate(mod, prop, tier, seed, shards, results, t0):
             path, ex, n, rc, rc2 = unconfirmed[0]
             raise HarnessError(
                 'case %s failed in the exploration but neither when '
-                'replayed alone (rc=%s) nor when its shard was run '
+                'replayed alone (rc=%s) nor when its shard - or all the '
+                'shards its worker process had run before - were run '
                 'again in a fresh interpreter (rc=%s): '
                 'nondeterministic case; replay=%s'
                 % (ex['key'], rc, rc2, path))
@@ -391,13 +421,17 @@ def replay(modname, prop, path, quiet=False):
     # shows a listed finding when run alone has not been reproduced) and in a
     # shard replay (where every case of the shard runs again).
     mask = (os.environ.get('XLMC_REPLAY_MASK_KNOWN') == '1'
-            or doc.get('replay_as') == 'shard')
+            or doc.get('replay_as') in ('shard', 'worker-history'))
     ctx = Ctx(prop, doc.get('tier') or 'quick',
               findings_mod.for_property(prop) if mask else [])
-    if doc.get('replay_as') == 'shard':
-        # history-dependent failure: the counterexample is the shard, the
-        # verdict is whether the recorded case fails in it again
-        mod.run_shard(doc['shard'], ctx)
+    if doc.get('replay_as') in ('shard', 'worker-history'):
+        # history-dependent failure: the counterexample is the shard (or the
+        # sequence of shards its worker process had run), the verdict is
+        # whether the recorded case fails in it again
+        sys.setrecursionlimit(3000)
+        for sh in (doc['history'] if doc.get('replay_as') == 'worker-history'
+                   else [doc['shard']]):
+            mod.run_shard(sh, ctx)
         again = [ex for v in ctx.unmatched.values() for ex in v[1]
                  if ex['key'] == doc['key']]
         hit = any(k == doc['key'] for v in ctx.unmatched.values()
